@@ -270,7 +270,8 @@ def parsePfxMac (file : Bytes) : Option PfxMac := do
 inductive OpenRes where
   | macOk (password : Bytes)     -- MAC verified; the password used for the bags
   | incorrectPassword
-  | other                        -- a different error (not produced for the files of the corpus)
+  | notImplemented               -- a NotImplementedError: version, content type, digest algorithm, iteration count
+  | other                        -- a different error
 deriving DecidableEq, Repr
 
 /-- Decode/ToPEM up to and including the MAC check, for password runes `rs`;
@@ -278,11 +279,11 @@ deriving DecidableEq, Repr
 def openPfx (file : Bytes) (rs : List Nat) : Option OpenRes :=
   match bmpString rs, parsePfxMac file with
   | some pw, some m =>
-    if m.version ≠ 3 ∨ !m.authSafeIsData then some .other else
+    if m.version ≠ 3 ∨ !m.authSafeIsData then some .notImplemented else
     match verifyWithRetry m.oidIsSha1 m.salt m.iterations m.digest m.content pw with
     | (.ok, pw') => some (.macOk pw')
     | (.incorrectPassword, _) => some .incorrectPassword
-    | (.notImplemented, _) => some .other
+    | (.notImplemented, _) => some .notImplemented
   | _, _ => none
 
 end XC.C21
